@@ -1,4 +1,5 @@
 import itertools
+import unicodedata
 from abc import ABC, abstractmethod
 from collections.abc import Collection, Container, Iterable, Mapping, Set
 from dataclasses import dataclass
@@ -207,7 +208,8 @@ def compile_closure_with_globals_capturing(
             # local `g_foo` must not shadow the global of local `foo`
             while global_name in namespace or global_name in global_namespace_dict:
                 global_name = f"g_{global_name}"
-            global_namespace_dict[global_name] = value
+            # compiler applies NFKC normalization to all identifiers of the source code
+            global_namespace_dict[unicodedata.normalize("NFKC", global_name)] = value
             builder += f"{name} = {global_name}"
         else:
             builder += f"{name} = {value_literal}"
